@@ -41,16 +41,16 @@ def case_strategy(big_ok=True):
             st.fixed_dictionaries({"name": st.just(n), "data": G.contents(70000, big=big_ok, blocksize=block),
                                    "api": st.sampled_from(APIS), "offset": st.integers(1, 40)}) for n in ns]).map(list))
 
-    def build(chain, header, target, block, chunk, volume):
+    def build(chain, header, target, block, chunk, volume, wmode):
         if header.startswith("encrypted") and chain["password"] is None:
             chain = dict(chain, password="pw")
             if chain["filters"] is not None and not any(f["id"] == G.F_AES for f in chain["filters"]):
                 header = "encoded" if False else header
         return members(block).map(lambda ms: {"members": ms, "filters": chain["filters"], "password": chain["password"],
-                                              "header": header, "target": target, "block": block, "chunk": chunk, "volume": volume})
+                                              "header": header, "target": target, "block": block, "chunk": chunk, "volume": volume, "wmode": wmode})
 
     return st.tuples(G.filter_chains(), st.sampled_from(G.HEADER_MODES), st.sampled_from(TARGETS), st.sampled_from(BLOCKS),
-                     st.sampled_from(CHUNKS), st.sampled_from([64, 65, 100, 4096, 1 << 20])).flatmap(lambda t: build(*t))
+                     st.sampled_from(CHUNKS), st.sampled_from([64, 65, 100, 4096, 1 << 20]), st.sampled_from(["w", "w", "x"])).flatmap(lambda t: build(*t))
 
 
 class C01(Check):
@@ -59,7 +59,7 @@ class C01(Check):
     technique = "Hypothesis-generated member lists x filter chains x header modes x targets x block sizes + covering enumeration of chain families x boundary lengths; round-trip oracle"
     rule = ("case = members (0..6, names over BMP/astral/control/space/leading-dot/drive-like classes, contents as (texture,length,seed) "
             "with boundary-biased lengths) x filter chain from the documented grammar (with parameters) x password x header mode "
-            "(raw/encoded/encrypted by flag/by setter) x target (path, pathlib, BytesIO, buffered file, multi-volume) x patched I/O block "
+            "(raw/encoded/encrypted by flag/by setter) x target (path, pathlib, BytesIO, buffered file, multi-volume) x creation mode 'w' / 'x'  x patched I/O block "
             "size x patched extraction chunk limit x write API (writestr bytes/str/bytearray/memoryview, writef BytesIO/real file at an "
             "offset). Oracle: reopen, names in order, extractall(factory) bytes and extractall(path) bytes equal the model. Non-trivial: "
             ">=1 non-empty member and (non-default chain or boundary-class length or patched block/chunk). distinct by (chain with "
@@ -104,8 +104,8 @@ class C01(Check):
                 aes = (idx % aes_every == 0)
                 filters = fam + ([{"id": G.F_AES}] if aes else [])
                 yield {"members": [{"name": "m.bin", "data": ["gen", tex, ln, idx], "api": "writestr-bytes"}], "filters": filters,
-                       "password": "pw" if aes else None, "header": "encoded", "target": "bytesio", "block": None, "chunk": None,
-                       "volume": 64, "cover": True}
+                       "password": "pw" if aes else None, "header": "encoded", "target": ["bytesio", "path", "pathlib", "file"][idx % 4], "block": None, "chunk": None,
+                       "volume": 64, "cover": True, "wmode": "x" if idx % 3 == 0 else "w"}
 
     def strategy(self, env):
         return case_strategy(big_ok=not env.quick)
@@ -129,12 +129,13 @@ class C01(Check):
                           tuple(sc), tuple(ncls))
         boundary = any(c.endswith("edge") or c in ("aes-block", "0") for c in sc)
         out.nontrivial = any(n > 0 for n in lens) and (filters is not None or boundary or case["block"] is not None or case["chunk"] is not None)
+        out.label("wmode:" + case.get("wmode", "w"))
         out.label("chain:" + fam, "header:" + case["header"], "target:" + case["target"], "block:%s" % case["block"], "chunk:%s" % case["chunk"])
         out.label(*["size:" + c for c in sc])
         out.label(*["name:" + c for c in ncls])
         out.sample = {"chain": G.chain_id(filters), "password": password is not None, "header": case["header"], "target": case["target"],
                       "block": case["block"], "chunk": case["chunk"], "members": [[m["name"][:40], m["data"][:3] if m["data"][0] == "gen" else "raw", m.get("api")] for m in members]}
-        sig_base = {"codec": main_codec(filters), "aes": bool(filters and any(f["id"] == G.F_AES for f in filters) or (filters is None and password))}
+        sig_base = {"wmode": case.get("wmode", "w"), "codec": main_codec(filters), "aes": bool(filters and any(f["id"] == G.F_AES for f in filters) or (filters is None and password))}
         wblock = case["block"] or (1 << 20)
         if any(n >= 2 * wblock for n in lens):
             sig_base["multiblock"] = True
@@ -152,7 +153,8 @@ class C01(Check):
                     out.inconclusive = "patch-unavailable"
                 # ---- write
                 try:
-                    z = arch.open_write(tgt.for_write(), filters, password, case["header"])
+                    # 'x' (exclusive creation) is the other documented way to make a new archive
+                    z = arch.open_write(tgt.for_write(), filters, password, case["header"], mode=case.get("wmode", "w"))
                 except UnsupportedCompressionMethodError as e:
                     out.label("rejected_config")
                     out.nontrivial = False
